@@ -234,6 +234,32 @@ Definition none_of (P : event -> bool) (evs : list event) : Prop :=
 Definition loop_is (s : state) (i : nat) (a : addr) (running : bool) : Prop :=
   nth_error (loops s) i = Some (mkLoop a running).
 
+(* ---- real time ----
+   A timed run attaches a timestamp (any unit) to every event.  Real time enters the theorems only through
+   the FAIRNESS HYPOTHESIS [fair c P tr]: a spoof loop that is running passes its select (6 s ticker or
+   closeChan) — i.e. a Wake of that loop occurs — within one ticker period P, as long as the run is
+   observed that long.  It is a hypothesis about the Go runtime (ticker, scheduler), not about the handler. *)
+Definition timed := list (Z * event).
+Definition events (tr : timed) : list event := map snd tr.
+Definition state_before (c : cfg) (tr : timed) (k : nat) : state :=
+  final c init_state (firstn k (events tr)).
+Definition output_at (c : cfg) (tr : timed) (k : nat) : option (list frame) :=
+  nth_error (outputs c init_state (events tr)) k.
+
+Definition time_ordered (tr : timed) : Prop :=
+  forall a b ta ea tb eb, (a <= b)%nat ->
+    nth_error tr a = Some (ta, ea) -> nth_error tr b = Some (tb, eb) -> (ta <= tb)%Z.
+
+Definition observed_until (tr : timed) (t : Z) : Prop :=
+  exists k' t' e', nth_error tr k' = Some (t', e') /\ (t <= t')%Z.
+
+Definition fair (c : cfg) (P : Z) (tr : timed) : Prop :=
+  forall k t e i a,
+    nth_error tr k = Some (t, e) ->
+    loop_is (state_before c tr (S k)) i a true ->
+    observed_until tr (t + P) ->
+    exists j t', (k < j)%nat /\ nth_error tr j = Some (t', Wake i) /\ (t' <= t + P)%Z.
+
 (* ---- recorded defect classes ----
    None is left in the current tree.  The three classes found on the original code were repaired in /repo
    (see known_findings.txt, FIXLOG.md):
